@@ -107,7 +107,7 @@ class Algebra:
     outercos: UnaryOperatorDict = operation_field(metadata={'codegen': codegen_outercos})
     outertan: UnaryOperatorDict = operation_field(metadata={'codegen': codegen_outertan})
     registry: dict = field(default_factory=dict, repr=False, compare=False)  # Dict of all operator dicts. Should be extended using Algebra.register
-    numspace: dict = field(default_factory=dict, repr=False, compare=False)  # Namespace for numerical functions
+    numspace: dict = field(default_factory=dict, init=False, repr=False, compare=False)  # Namespace for numerical functions
 
     # Mappings from binary to canonical reps. e.g. 0b01 = 1 <-> 'e1', 0b11 = 3 <-> 'e12'.
     canon2bin: dict = field(init=False, repr=False, compare=False)
